@@ -69,6 +69,29 @@ Theorem rewrite_import_binds_same_table :
 Proof. exact rewrite_import_binds_same_gen. Qed.
 Print Assumptions rewrite_import_binds_same_table.
 
+(* order: for every module M, the names the replacement statements import from M are, in the
+   original order, exactly the imported names whose target module is M (a mapped name under its
+   new name, asname kept) - provided no mapped name of m has m itself as target, which holds for
+   the regenerated table *)
+Theorem rewrite_import_order_per_target :
+  forall (mp : mapping_t) (m : option pystr) (ns : list alias) (M : option pystr),
+    (forall n nm nn, lookup2 mp m n = Some (nm, nn) -> Some nm <> m) ->
+    names_from M (rewrite_import mp m ns) = flat_map (contrib mp m M) ns.
+Proof. exact rewrite_import_order_lemma. Qed.
+Print Assumptions rewrite_import_order_per_target.
+
+Theorem rewrite_import_order_per_target_table :
+  forall (m : option pystr) (ns : list alias) (M : option pystr),
+    names_from M (rewrite_import gen_mapping m ns) = flat_map (contrib gen_mapping m M) ns.
+Proof. exact rewrite_import_order_gen. Qed.
+Print Assumptions rewrite_import_order_per_target_table.
+
+(* a second run finds nothing left to map: the expected statements are a fixed point *)
+Theorem rewrite_twice_stable :
+  forall s, flat_map (rewrite_stmt gen_mapping) (rewrite_stmt gen_mapping s) = rewrite_stmt gen_mapping s.
+Proof. exact rewrite_stmt_twice_gen. Qed.
+Print Assumptions rewrite_twice_stable.
+
 (* relative imports and every other statement are expected (and, by the next theorem,
    found) unchanged *)
 Theorem rewrite_stmt_relative_untouched :
